@@ -178,6 +178,66 @@ def moved_tracepoint_leg(c, wd):
         sys.modules.pop(mod.__name__, None)
 
 
+OVERTAKE_HOST = '''
+OTHER = None
+
+
+def meanwhile():
+    """Called by the condition of the first hit: time passes and another thread hits the same line - and fires."""
+    if OTHER is not None:
+        OTHER()
+    return True
+
+
+def hit(c):
+    x = c + 1  # TP:hit
+    return x
+'''
+
+
+def overtaken_hit_leg(c, wd):
+    """fire_count -1 and fire_period 0: every hit is wanted. A hit whose time was taken BEFORE another thread's later hit
+    fired (it was still evaluating its condition) collects all the same."""
+    import threading
+    from .. import rig as R
+    mod, path, marks = R.write_host(wd, OVERTAKE_HOST)
+    base = path.rsplit('/', 1)[-1]
+    rg = R.Rig()
+    try:
+        rg.install([{'id': 'tp-every', 'path': base, 'line': marks['hit'],
+                     'args': {'fire_count': '-1', 'fire_period': '0', 'condition': 'meanwhile()'}}])
+        rg.clock.set(10)
+        state = {'nested': False}
+
+        def other():
+            if state['nested']:
+                return
+            state['nested'] = True
+            rg.clock.set(12)            # time passes ...
+
+            def second():
+                state['second'] = rg.run(mod.hit, 100, only_file=path)
+            th = threading.Thread(target=second)      # ... and another thread reaches the line, and fires
+            th.start()
+            th.join(30)
+        mod.OTHER = other
+        res = rg.run(mod.hit, 1, only_file=path)
+        got = len(rg.snapshots())
+        c.traces_validated += 1
+        c.note_case(key=('overtaken-hit',), nontrivial=True)
+        if res != ('ok', 2) or state.get('second') != ('ok', 101) or rg.escaped:
+            p_ = c.save_replay({'kind': 'overtaken-hit', 'results': [repr(res), repr(state.get('second'))]})
+            c.violation('overtaken hit: host changed / handler raised: %r %r %r' % (res, state.get('second'), rg.escaped), p_)
+        elif got != 2:
+            p_ = c.save_replay({'kind': 'overtaken-hit', 'collections': got, 'expected': 2})
+            c.violation('fire_count=-1, fire_period=0: a hit whose time was taken before another thread\'s later hit fired '
+                        'collected nothing (%d collections for 2 hits): every hit is within the limits' % got, p_)
+    finally:
+        mod.OTHER = None
+        rg.close()
+        sys.modules.pop(mod.__name__, None)
+
+
 def multi_action_leg(c, wd):
     """The limits are kept PER ACTION of a tracepoint (snapshot, log, metric, span each count their own collections):
     a tracepoint with several actions and fire_count=2 is hit five times across three configurations of the service in
@@ -381,6 +441,7 @@ def run(c):
     window_args_leg(c, wd)
     moved_tracepoint_leg(c, wd)
     multi_action_leg(c, wd)
+    overtaken_hit_leg(c, wd)
     # concurrent schedules
     traces, meta = gate_schedules(c, RACE_CFGS, wd, line_level=False, max_preemptions=8, max_runs=None)
     validate(c, traces, meta, 'gate-schedule')
